@@ -490,7 +490,7 @@ func (rtcmHandler *Handler) GetMessage(bitStream []byte) (*Message, error) {
 // getTimeDisplayFromTimestamp gets a printable version of the time from the
 // timestamp.  If that provokes an error, BOTH the string and the error
 // are returned.
-func (rtcmHandler Handler) getTimeDisplayFromTimestamp(messageType int, timestamp uint) (string, error) {
+func (rtcmHandler *Handler) getTimeDisplayFromTimestamp(messageType int, timestamp uint) (string, error) {
 
 	result := "Time "
 
